@@ -13,7 +13,7 @@ PI: "pi"
 SIN: "sin"
 COS: "cos"
 TAN: "tan"
-EXP: "EXP"
+EXP: "exp"
 LN: "ln"
 SQRT: "sqrt"
 COMMENT: /\/\/+.*/
